@@ -383,6 +383,16 @@ func judge(op *Op, c *caseT, r *DriverResp) *Failure {
 		if op.Signature != nil {
 			f.Signature = op.Signature(c.in, c.implV)
 		}
+		// the driver may classify the violation itself (extra.signature), e.g. when the class depends on which
+		// element of the outcome failed
+		if len(r.Extra) > 0 {
+			var ex struct {
+				Signature string `json:"signature"`
+			}
+			if json.Unmarshal(r.Extra, &ex) == nil && ex.Signature != "" {
+				f.Signature = ex.Signature
+			}
+		}
 		return f
 	}
 	if r.Err != "" {
